@@ -100,6 +100,7 @@ pub fn check_in(rep: &mut Rep, x: f64, u: Unit) {
     if nt {
         rep.nt(h64(&[1, x.to_bits(), unit_ns(u) as u64]));
     }
+    rep.log_event("in", || format!("\"bits\":\"{}\",\"unit_ns\":\"{}\",\"want\":\"{}\"", x.to_bits(), unit_ns(u), want.map(|v| v.to_string()).unwrap_or("any".into())));
     rep.sample("in", || format!("{} * {:?} => want {:?}", fmt_f64(x), u, want.map(canon)));
     let forms: [(&str, Box<dyn Fn() -> Option<Duration>>); 4] = [
         ("x*Unit", Box::new(move || Some(x * u))),
@@ -151,6 +152,7 @@ pub fn check_out(rep: &mut Rep, d: Duration) {
     match guard(|| d.to_seconds()) {
         Err(e) => rep.fail(&format!("to_seconds/panic/{}", e.class()), None, || format!("{}.to_seconds() panicked {}", fmt_parts(p), e.msg)),
         Ok(x) => {
+            rep.log_event("out", || format!("\"c\":\"{}\",\"bits\":\"{}\",\"judged_ok\":{}", c, x.to_bits(), flt::within_ulps(x, c, NS_S, flt::ulp((c as f64 / 1e9).abs().max(1.0)), 8.0)));
             let exact_f = c as f64 / 1e9;
             let ur = flt::ulp(exact_f.abs().max(1.0));
             let err = flt::approx_err_ulps(x, c, NS_S, ur);
@@ -316,8 +318,16 @@ pub fn check_compose_f64(rep: &mut Rep, sign: i8, f: [f64; 7]) {
         Err(e) => rep.fail(&format!("compose_f64/panic/{}", e.class()), None, || format!("compose_f64({sign},{:?}) panicked: {}", f, e.msg)),
         Ok(g) => {
             if let Some(w) = want {
-                if count_d(g) != w || !is_canonical(g.to_parts()) {
-                    rep.fail("compose_f64/value", None, || format!("compose_f64({sign},{:?}) = {} want count {}", f, fmt_parts(g.to_parts()), w));
+                // The statement fixes each field's conversion, not the order in which a correct implementation
+                // sums them: allow one nanosecond per field plus 8 ulp of the result (exact when every field is
+                // a whole number of nanoseconds below 2^53, which any summation order gets right).
+                let all_exact = (0..7).all(|i| {
+                    let p = f[i] * crate::props::c18::factor_f64(us[i]);
+                    p.is_finite() && p.fract() == 0.0 && p.abs() < 9007199254740992.0
+                });
+                let tol: i128 = if all_exact { 0 } else { 7 + (8.0 * flt::ulp(w as f64)).ceil() as i128 };
+                if (count_d(g) - w).abs() > tol || !is_canonical(g.to_parts()) {
+                    rep.fail("compose_f64/value", None, || format!("compose_f64({sign},{:?}) = {} want count {} +- {}", f, fmt_parts(g.to_parts()), w, tol));
                 }
             }
         }
